@@ -202,6 +202,50 @@ func runC13(e *emitter, tier string, seed uint64) {
 		}
 		e.emit("layer two-contexts", "layer", "two-contexts", hx(`<nb><useid="1">L</use><useid="2">R</use></nb>`), hx(out))
 	}
+	// a hand-written layer that sets the nonce of its context before it hands the block on: the block is still there
+	if e.mine("layer nonce-before-block") {
+		layer := templ.ComponentFunc(func(ctx context.Context, w io.Writer) error {
+			ctx = templ.WithNonce(ctx, "n1")
+			return tmpl.Use("1").Render(ctx, w)
+		})
+		var sb strings.Builder
+		err := tmpl.CallWithBlock(layer, "M", templ.Raw("I")).Render(templ.InitializeContext(context.Background()), &sb)
+		out := c13Canon(sb.String())
+		if err != nil {
+			out = "ERR:" + err.Error()
+		}
+		e.emit("layer nonce-before-block", "layer", "nonce-before-block", hx(`<wb><useid="1"><m>M</m>I</use></wb>`), hx(out))
+		// ... and a callee that takes its block out after setting the nonce
+		direct := templ.ComponentFunc(func(ctx context.Context, w io.Writer) error {
+			ctx = templ.WithNonce(ctx, "n2")
+			return templ.GetChildren(ctx).Render(ctx, w)
+		})
+		sb.Reset()
+		err = tmpl.CallWithBlock(direct, "M", templ.Raw("I")).Render(templ.InitializeContext(context.Background()), &sb)
+		out = c13Canon(sb.String())
+		if err != nil {
+			out = "ERR:" + err.Error()
+		}
+		e.emit("layer nonce-then-getchildren", "layer", "nonce-then-getchildren", hx(`<wb><m>M</m>I</wb>`), hx(out))
+	}
+	// blocks that hold only an HTML comment, or only Go code
+	if e.mine("layer comment-only-block") {
+		var sb strings.Builder
+		err := tmpl.CommentOnlyBlock(tmpl.Twice("t")).Render(templ.InitializeContext(context.Background()), &sb)
+		out := c13Canon(sb.String())
+		if err != nil {
+			out = "ERR:" + err.Error()
+		}
+		e.emit("layer comment-only-block", "layer", "comment-only-block", hx(`<cb><twid="t"><!--marker-->|<!--marker--></tw></cb>`), hx(out))
+		calls := 0
+		sb.Reset()
+		err = tmpl.CodeOnlyBlock(tmpl.Twice("t"), func() { calls++ }).Render(templ.InitializeContext(context.Background()), &sb)
+		out = c13Canon(sb.String()) + fmt.Sprintf("calls=%d", calls)
+		if err != nil {
+			out = "ERR:" + err.Error()
+		}
+		e.emit("layer code-only-block", "layer", "code-only-block", hx(`<gb><twid="t">|</tw></gb>calls=2`), hx(out))
+	}
 	// the four shapes that leaked before the repair, and the basic ones
 	fixed := []string{}
 	_ = fixed
